@@ -99,8 +99,17 @@ pub fn construct(cps: &[u32], fl: Fl, no_opt: bool) -> Result<Regex, regress::Er
     let text: Option<String> = if (salt >> 3) % 3 == 0 { cps.iter().map(|c| char::from_u32(*c)).collect() } else { None };
     let plain = !(flags.icase || flags.multiline || flags.dot_all || flags.no_opt || flags.unicode || flags.unicode_sets);
     match &text {
-        Some(t) if plain && (salt >> 5) % 2 == 0 => Regex::new(t),
+        Some(t) if plain && (salt >> 5) % 4 == 0 => Regex::new(t),
+        Some(t) if plain && (salt >> 5) % 4 == 1 => t.parse::<Regex>(),
         Some(t) => Regex::with_flags(t, flags),
+        None if (salt >> 5) % 4 == 3 => {
+            // the documented manual pipeline of regress::backends
+            let mut ire = rbe::try_parse(cps.iter().copied(), flags)?;
+            if !flags.no_opt {
+                rbe::optimize(&mut ire);
+            }
+            Ok(Regex::from(rbe::emit(&ire)))
+        }
         None => Regex::from_unicode(cps.iter().copied(), flags),
     }
 }
